@@ -189,10 +189,14 @@ theorem simK (t : Tree) : ∀ (x : Ctx) (s : ISt) (K : KSt), RK s K →
     intro x s K hR
     simp only [im, spK]
     split
-    · refine ⟨_, rfl, ⟨hR.1, ?_, hR.2.2⟩, rfl, List.prefix_append _ _⟩
-      show s.ev ++ [(x.c, e)] = K.ev ++ [(x.c, e)]
-      have : s.ev = K.ev := hR.2.1
-      rw [this]
+    · have hl : s.ev.length = K.ev.length := by have : s.ev = K.ev := hR.2.1; rw [this]
+      rw [hl]
+      split
+      · refine ⟨_, rfl, ⟨hR.1, ?_, hR.2.2⟩, rfl, List.prefix_append _ _⟩
+        show s.ev ++ [(x.c, e)] = K.ev ++ [(x.c, e)]
+        have : s.ev = K.ev := hR.2.1
+        rw [this]
+      · exact Or.inl ⟨K, rfl⟩
     · exact Or.inl ⟨K, rfl⟩
   | ifp k body ih =>
     intro x s K hR
@@ -398,6 +402,13 @@ theorem simK (t : Tree) : ∀ (x : Ctx) (s : ISt) (K : KSt), RK s K →
             rw [this]
         have hp1 : s.ev <+: s0.ev ++ out.evs := by rw [hev0]; exact List.prefix_append _ _
         simp only [imPhase, spKPhase]
+        have hlen : (s0.ev ++ out.evs).length = (K.ev ++ out.evs).length := by
+          have : s0.ev = K.ev := hR0.2.1
+          rw [this]
+        rw [hlen]
+        by_cases hlim : maxNotifications < (K.ev ++ out.evs).length
+        · simp only [hlim, if_true]; exact Or.inl ⟨_, rfl⟩
+        simp only [hlim, if_false]
         cases hcb : out.cb with
         | none =>
           simp only
